@@ -169,9 +169,12 @@ func H_C18_Backup() {
 	vTrace(false)
 	vAssert("c18.backup-ok", err == nil)
 	vAssert("c18.lock-released", vLockHeld(&db.mu) == 0)
-	// writes after the backup must not show up in the copy
+	// writes after the backup must not show up in the copy. They are traced as well: what a writer
+	// writes (files, indexes) is what Backup must not read outside the lock
 	more := genTxs(vParam("profile"), 1, 1)
+	vTrace(true)
 	runTxs(db, more)
+	vTrace(false)
 	opt2 := opt
 	opt2.Dir = dst
 	db2, err := Open(opt2)
@@ -179,7 +182,10 @@ func H_C18_Backup() {
 	if err != nil {
 		return
 	}
-	vAssert("c18.copy-shows-state-at-backup", obsSame(o0, observe(db2, keys, structs)))
+	oc := observe(db2, keys, structs)
+	obsDescribe("source-at-backup", o0)
+	obsDescribe("copy", oc)
+	vAssert("c18.copy-shows-state-at-backup", obsSame(o0, oc))
 	db2.Close()
 	db.Close()
 }
